@@ -106,7 +106,7 @@ def rule_R1(ctx, f):
             ctx.ob(rid, "%s|%s.%s#%d" % (m, fld, name, n), not bad,
                    "%s mutates self.%s (%s) on a path that can still fail: Err returns at %s are reachable afterwards, so a rejected call leaves a trace" % (
                        m, fld, name, [b.span_of_block(x) for x in bad]), site=b.span_of_block(bb))
-    ctx.floor(rid, "registry mutation sites in register/unregister", total, 5)
+    ctx.floor(rid, "registry mutation sites in register/unregister", total, 4)
 
 
 def _desc_elem(b, t):
